@@ -192,7 +192,18 @@ pub fn gen_cmd_world(rng: &mut Rng, first_party_in_registry: bool) -> CmdWorld {
     let mut names: Vec<String> = graph.pkgs.iter().map(|p| p.name.clone()).collect();
     names.sort();
     names.dedup();
-    let third: Vec<String> = graph.pkgs.iter().filter(|p| p.source != 0).map(|p| p.name.clone()).collect();
+    let mut third: Vec<String> = graph.pkgs.iter().filter(|p| p.source != 0).map(|p| p.name.clone()).collect();
+    // sometimes one path (first-party) non-member package whose name is unique in the graph is
+    // audited as its crates.io namesake; its local version may or may not be published
+    let aac: Option<String> = if rng.chance(1, 3) {
+        let cands: Vec<String> = graph.pkgs.iter().filter(|p| p.source == 0 && !p.member && graph.pkgs.iter().filter(|q| q.name == p.name).count() == 1).map(|p| p.name.clone()).collect();
+        if cands.is_empty() { None } else { Some(rng.pick(&cands).clone()) }
+    } else {
+        None
+    };
+    if let Some(n) = &aac {
+        third.push(n.clone());
+    }
     let vers_of = |name: &str, rng: &mut Rng| -> Vec<VetVersion> {
         let mut v: Vec<VetVersion> = graph.pkgs.iter().filter(|p| p.name == name).map(|p| p.version.clone()).collect();
         for _ in 0..rng.range(1, 2) {
@@ -258,6 +269,9 @@ pub fn gen_cmd_world(rng: &mut Rng, first_party_in_registry: bool) -> CmdWorld {
                 .collect();
             config.exemptions.insert(name.clone(), l);
         }
+    }
+    if let Some(n) = &aac {
+        config.policy.insert(n.clone(), PackagePolicyEntry::Unversioned(PolicyEntry { audit_as_crates_io: Some(true), criteria: None, dev_criteria: None, dependency_criteria: CriteriaMap::new(), notes: None }));
     }
     // simple policies on workspace members
     for p in graph.pkgs.iter().filter(|p| p.member) {
@@ -333,7 +347,11 @@ pub fn gen_cmd_world(rng: &mut Rng, first_party_in_registry: bool) -> CmdWorld {
         if !is_third && !first_party_in_registry {
             continue;
         }
-        let mut vs: Vec<semver::Version> = graph.pkgs.iter().filter(|p| &p.name == name && p.source != 0).map(|p| p.version.semver.clone()).collect();
+        if Some(name) == aac.as_ref() {
+            remote.matching_metadata.insert(name.clone());
+        }
+        // (the local version of an audited-as-crates.io path package is published half of the time)
+        let mut vs: Vec<semver::Version> = graph.pkgs.iter().filter(|p| &p.name == name && (p.source != 0 || (Some(name) == aac.as_ref() && rng.chance(1, 2)))).map(|p| p.version.semver.clone()).collect();
         for _ in 0..rng.range(1, 2) {
             vs.push(pool[rng.below(6)].semver.clone());
         }
@@ -554,7 +572,80 @@ const COMMANDS: [&[&str]; 9] = [
     &["fmt"],
 ];
 
+/// Template worlds around an audit-as-crates-io path package whose local version is not
+/// published: crates.io serves a few versions around it, local and peer audits cover published
+/// versions and deltas from them to the local version, the peer may serve them only later.
+pub fn gen_unpublished_world(rng: &mut Rng) -> CmdWorld {
+    let v = |m: u64| VetVersion::parse(&format!("{m}.0.0")).unwrap();
+    let local = rng.range(3, 6) as u64;
+    let graph = gen::GGraph {
+        pkgs: vec![
+            gen::GPkg { name: "alfa".into(), version: v(1), source: 0, member: true, deps: vec![(1, 1), (2, 1)] },
+            gen::GPkg { name: "bravo".into(), version: v(local), source: 0, member: false, deps: vec![] },
+            gen::GPkg { name: "charlie".into(), version: v(1), source: 1, member: false, deps: vec![] },
+        ],
+        resolve_order: vec![0, 1, 2],
+        member_order: vec![0],
+    };
+    let mut config = ConfigFile { cargo_vet: Default::default(), default_criteria: get_default_criteria(), imports: SortedMap::new(), policy: Default::default(), exemptions: SortedMap::new() };
+    config.policy.insert("bravo".into(), PackagePolicyEntry::Unversioned(PolicyEntry { audit_as_crates_io: Some(true), criteria: None, dev_criteria: None, dependency_criteria: CriteriaMap::new(), notes: None }));
+    let mut published: Vec<u64> = (1..=7).filter(|m| *m != local && rng.chance(1, 2)).collect();
+    if !published.iter().any(|m| *m < local) {
+        published.push(local - 1);
+    }
+    if rng.chance(1, 5) {
+        published.push(local);
+    }
+    published.sort();
+    let mut tag = 0;
+    let mut entry = |kind: AuditKind, crit: &str| {
+        tag += 1;
+        AuditEntry { who: vec![], criteria: vec![gen::sp(crit.to_owned())], kind, importable: true, notes: Some(format!("u{tag}")), aggregated_from: vec![], is_fresh_import: false }
+    };
+    let mut audits = AuditsFile { criteria: SortedMap::new(), wildcard_audits: SortedMap::new(), audits: SortedMap::new(), trusted: SortedMap::new() };
+    audits.audits.insert("charlie".into(), vec![entry(AuditKind::Full { version: v(1) }, SAFE_TO_DEPLOY)]);
+    let mut mine = Vec::new();
+    let mut theirs = Vec::new();
+    for m in &published {
+        if rng.chance(1, 2) {
+            mine.push(entry(AuditKind::Full { version: v(*m) }, if rng.chance(3, 4) { SAFE_TO_DEPLOY } else { SAFE_TO_RUN }));
+        }
+        if rng.chance(1, 2) {
+            theirs.push(entry(AuditKind::Full { version: v(*m) }, SAFE_TO_DEPLOY));
+        }
+        if rng.chance(1, 3) {
+            theirs.push(entry(AuditKind::Delta { from: v(*m), to: v(local) }, if rng.chance(3, 4) { SAFE_TO_DEPLOY } else { SAFE_TO_RUN }));
+        }
+        if rng.chance(1, 4) {
+            mine.push(entry(AuditKind::Delta { from: v(*m), to: v(local) }, SAFE_TO_DEPLOY));
+        }
+    }
+    if !mine.is_empty() {
+        audits.audits.insert("bravo".into(), mine);
+    }
+    if rng.chance(1, 3) {
+        config.exemptions.insert("bravo".into(), vec![ExemptedDependency { version: v(local), criteria: vec![gen::sp(SAFE_TO_DEPLOY.to_owned())], suggest: true, notes: None }]);
+    }
+    let mut remote = Remote::default();
+    let mut peer = AuditsFile { criteria: SortedMap::new(), wildcard_audits: SortedMap::new(), audits: SortedMap::new(), trusted: SortedMap::new() };
+    if !theirs.is_empty() {
+        peer.audits.insert("bravo".into(), theirs);
+    }
+    remote.peers.insert(peer_url(0), peer);
+    config.imports.insert("peer0".into(), RemoteImport { url: vec![peer_url(0)], exclude: vec![], criteria_map: CriteriaMap::new() });
+    remote.registry.insert("bravo".into(), published.iter().map(|m| RegVersion { version: semver::Version::new(*m, 0, 0), user: Some(1), day: 0 }).collect());
+    remote.matching_metadata.insert("bravo".into());
+    remote.registry.insert("charlie".into(), vec![RegVersion { version: semver::Version::new(1, 0, 0), user: Some(1), day: 0 }]);
+    CmdWorld { graph, config, audits, remote }
+}
+
 pub fn run_history(r: &mut Report, rng: &mut Rng, idx: u64) {
+    if idx % 5 == 0 {
+        let w = gen_unpublished_world(rng);
+        let p = setup_project(&w);
+        exec_history(r, rng, idx, w, p, None);
+        return;
+    }
     let w = gen_cmd_world(rng, false);
     let p = setup_project(&w);
     exec_history(r, rng, idx, w, p, None);
@@ -594,6 +685,21 @@ pub fn corpus_f4() -> (CmdWorld, Project) {
     lock_file.audits.insert("bravo".into(), vec![full(&["reviewed"])]);
     let store = Store::mock(w.config.clone(), w.audits.clone(), ImportsFile { unpublished: SortedMap::new(), publisher: SortedMap::new(), audits: [("peer0".to_owned(), lock_file)].into_iter().collect() });
     p.write(&store.mock_commit());
+    (w, p)
+}
+
+/// witness of the audits.toml variants of F4: as `corpus_f4`, but the single-criterion audit is a
+/// local non-importable one instead of a lock-stale imported one.  The first pruning run needs it
+/// (level "non-importable" beats "fresh import") and imports the peer's two-criteria audit for
+/// the other criterion; in the second run that import is stale, both criteria are routed over it
+/// and the local audit is pruned from audits.toml.
+pub fn corpus_f4_local() -> (CmdWorld, Project) {
+    let (mut w, _p) = corpus_f4();
+    let full = |c: &[&str], importable: bool| AuditEntry { who: vec![], criteria: c.iter().map(|s| gen::sp(s.to_string())).collect(), kind: AuditKind::Full { version: VetVersion::parse("1.0.0").unwrap() }, importable, notes: None, aggregated_from: vec![], is_fresh_import: false };
+    w.audits.audits.insert("bravo".into(), vec![full(&["reviewed"], false)]);
+    let peer = w.remote.peers.get_mut(&peer_url(0)).unwrap();
+    peer.audits.insert("bravo".into(), vec![full(&["fuzzed", "reviewed"], true)]);
+    let p = setup_project(&w);
     (w, p)
 }
 
@@ -722,7 +828,10 @@ pub fn exec_history(r: &mut Report, rng: &mut Rng, idx: u64, mut w: CmdWorld, p:
                         // one failure per file that changed, so that a run changing two files is not
                         // a different signature from two runs changing one each
                         for f in &which {
-                            let sig = format!("C13/cmd/{}-twice-changes-{}", cmd_s.replace("--", "").replace(' ', "-"), f);
+                            // the command without its flags: flags only restrict which of the three
+                            // pruning passes run, the call site is the same
+                            let base: Vec<&str> = cmd_s.split(' ').filter(|a| !a.starts_with("--")).collect();
+                            let sig = format!("C13/cmd/{}-twice-changes-{}", base.join("-"), f);
                             r.fail("oracle", &sig, format!("second `{cmd_s}` changed {which:?}\n--- imports.lock after first\n{}\n--- after second\n{}\n--- config after first\n{}\n--- after second\n{}", after[2], again[2], after[1], again[1]), &case);
                         }
                     }
@@ -758,6 +867,11 @@ pub fn run(r: &mut Report) {
         // the witnesses of the known findings, one fresh project per command
         for cmd in [&["prune"][..], &["regenerate", "imports"][..], &["regenerate", "exemptions"][..]] {
             let (w, p) = corpus_f4();
+            let mut crng = Rng::new(1);
+            exec_history(r, &mut crng, 0, w, p, Some(vec![cmd]));
+        }
+        for cmd in [&["prune"][..], &["regenerate", "imports"][..], &["regenerate", "exemptions"][..]] {
+            let (w, p) = corpus_f4_local();
             let mut crng = Rng::new(1);
             exec_history(r, &mut crng, 0, w, p, Some(vec![cmd]));
         }
